@@ -15,9 +15,10 @@ CONSTANTS
   PqTypes = {"int8", "int16", "int32", "int64", "uint8", "uint16", "uint32", "uint64", "float32", "float64", "decimal", "string", "binary", "fsb", "bool", "ts_s", "ts_ms", "ts_us", "ts_ns", "date32"}
   PqTimeTypes = {"ts_s", "ts_ms", "ts_us", "ts_ns", "int64", "int32", "int16", "uint64", "uint32", "float64", "float32", "string", "binary", "fsb", "int8", "date32"}
   PqNulls = {TRUE, FALSE}
-  PqRanges = {"mid"}
+  PqRanges = {"mid", "top"}
   Families = {"cfg"}
   PqFamCols = 1
+  U64Check = TRUE
   Emit = FALSE
-INVARIANTS Safety PqLossless
+INVARIANTS Safety
 CHECK_DEADLOCK FALSE
